@@ -82,18 +82,43 @@ func cdxFlow(c *Ctx) {
 		}
 		// lifecycles: Serialize ranges DocumentTypes and appends to Lifecycles; Unserialize ranges Lifecycles and appends DocumentTypes
 		wl, rl := false, false
-		ast.Inspect(ser.fd.Body, func(n ast.Node) bool {
-			if rs, ok := n.(*ast.RangeStmt); ok && strings.Contains(types.ExprString(rs.X), "DocumentTypes") && strings.Contains(exprText(c.P.Fset, rs.Body), "Lifecycles") {
-				wl = true
+		// the loops may live in helpers: look in everything the drivers reach inside their package,
+		// and recognise the ranged collection by its element type rather than by its spelling
+		elemNamed := func(d *declInfo, e ast.Expr, name string) bool {
+			t := d.pkg.TypesInfo.TypeOf(e)
+			if t == nil {
+				return false
 			}
-			return true
-		})
-		ast.Inspect(uns.fd.Body, func(n ast.Node) bool {
-			if rs, ok := n.(*ast.RangeStmt); ok && strings.Contains(types.ExprString(rs.X), "Lifecycles") && strings.Contains(exprText(c.P.Fset, rs.Body), "DocumentTypes") {
-				rl = true
+			if p, ok := t.Underlying().(*types.Pointer); ok {
+				t = p.Elem()
 			}
-			return true
-		})
+			var el types.Type
+			switch u := t.Underlying().(type) {
+			case *types.Slice:
+				el = u.Elem()
+			case *types.Array:
+				el = u.Elem()
+			default:
+				return false
+			}
+			return typeIs(el, "", name)
+		}
+		for _, d := range pkgFilter(c.reachDecls(R, cdxSer), "serializers.") {
+			ast.Inspect(d.fd.Body, func(n ast.Node) bool {
+				if rs, ok := n.(*ast.RangeStmt); ok && elemNamed(d, rs.X, "DocumentType") && strings.Contains(exprText(c.P.Fset, rs.Body), "Lifecycle") {
+					wl = true
+				}
+				return true
+			})
+		}
+		for _, d := range pkgFilter(c.reachDecls(R, cdxUnser), "unserializers.") {
+			ast.Inspect(d.fd.Body, func(n ast.Node) bool {
+				if rs, ok := n.(*ast.RangeStmt); ok && elemNamed(d, rs.X, "Lifecycle") && strings.Contains(exprText(c.P.Fset, rs.Body), "DocumentTypes") {
+					rl = true
+				}
+				return true
+			})
+		}
 		c.check(wl && rl, R, "cdx-document#lifecycles", c.P.Pos(ser.fd.Pos()), "DocumentTypes ↔ Lifecycles loops on both sides", "document types are not carried into / out of CycloneDX lifecycles")
 	}
 }
@@ -178,28 +203,45 @@ func identifierSlots(c *Ctx, wr, rd *declInfo) {
 	}
 	for _, sl := range slots {
 		construct := "cdx-component#Identifiers[" + strings.TrimPrefix(sl.idConst, "SoftwareIdentifierType_") + "]"
-		// writer: assignment to c.<field> inside a case clause naming the constant, value from n.Identifiers
+		// writer: inside a range over n.Identifiers, an assignment to c.<field> that runs only for the
+		// key <const> (case clause of a switch on the key, `if key == const`, else-if chains, tagless
+		// switches) and whose value is the map entry of that key: n.Identifiers[key], the range's value
+		// variable, or a local bound to one of them
 		wOK := false
-		wdefs := singleDefs(wr.pkg, wr.fd.Body) // the value may pass through a local: `if cpe := n.Identifiers[t]; cpe != "" { c.CPE = cpe }`
+		wdefs := singleDefs(wr.pkg, wr.fd.Body)
 		ast.Inspect(wr.fd.Body, func(n ast.Node) bool {
-			cc, ok := n.(*ast.CaseClause)
-			if !ok {
+			rs, ok := n.(*ast.RangeStmt)
+			if !ok || !strings.HasSuffix(normText(types.ExprString(rs.X)), "Identifiers") {
 				return true
 			}
-			names := exprText(c.P.Fset, &ast.BlockStmt{List: []ast.Stmt{&ast.ExprStmt{X: &ast.CompositeLit{Elts: cc.List}}}})
-			if !strings.Contains(names, sl.idConst) {
-				return true
+			keyObj := objOf(wr.pkg, rs.Key)
+			var valObj types.Object
+			if rs.Value != nil {
+				valObj = objOf(wr.pkg, rs.Value)
 			}
-			for _, st := range cc.Body {
-				ast.Inspect(st, func(m ast.Node) bool {
-					if as, ok := m.(*ast.AssignStmt); ok && len(as.Lhs) == 1 && len(as.Rhs) == 1 {
-						if sel, ok := as.Lhs[0].(*ast.SelectorExpr); ok && sel.Sel.Name == sl.field && strings.Contains(types.ExprString(chase(wr.pkg, wdefs, as.Rhs[0])), "Identifiers[") {
-							wOK = true
-						}
-					}
+			ast.Inspect(rs.Body, func(m ast.Node) bool {
+				as, ok := m.(*ast.AssignStmt)
+				if !ok || len(as.Lhs) != 1 || len(as.Rhs) != 1 {
 					return true
-				})
-			}
+				}
+				sel, ok := as.Lhs[0].(*ast.SelectorExpr)
+				if !ok || sel.Sel.Name != sl.field {
+					return true
+				}
+				_, names := keysOfWrite(wr, rs, keyObj, as)
+				if !strings.Contains(names, sl.idConst) {
+					return true
+				}
+				v := chase(wr.pkg, wdefs, as.Rhs[0])
+				fromEntry := strings.Contains(normText(types.ExprString(v)), "Identifiers[")
+				if id, isId := v.(*ast.Ident); isId && valObj != nil && objOf(wr.pkg, id) == valObj {
+					fromEntry = true
+				}
+				if fromEntry {
+					wOK = true
+				}
+				return true
+			})
 			return true
 		})
 		// reader: node.Identifiers[…<const>…] = c.<field> (the key may be a local set to the constant)
